@@ -29,3 +29,16 @@ package extract
 //@   ensures other-entries-kept: forallS(k, k != pkg.Path() ==> imports[k] == old(imports[k]))
 //@   ensures qualifier-is-package-name: r == pkg.Name()
 //@   canary imports[pkg.Path()]
+
+// Interfaces used only as generic constraints (no method at all, but embedded elements) are the only
+// exported interfaces left out of the bindings: the test is on the COMPLETE method set of the interface
+// (an exported interface whose methods are all unexported is still an exported type and is bound).
+//@ lit Extractor.genContent if:NumEmbeddeds () ()
+//@   props C18
+//@   opt safety = off
+//@   opt opaque-calls = *
+//@   opt opaque-havoc = none
+//@   requires [assume] typ != nil && t != nil
+//@   ensures dropped-only-if-no-method-at-all: old(has(typ, name)) && !has(typ, name) ==> t.NumMethods() == 0 && t.NumEmbeddeds() != 0
+//@   ensures constraint-interface-dropped: t.NumMethods() == 0 && t.NumEmbeddeds() != 0 ==> !has(typ, name)
+//@   ensures other-bindings-kept: forallS(k, k != name ==> has(typ, k) == old(has(typ, k)) && typ[k] == old(typ[k]))
